@@ -25,8 +25,8 @@ from ..model import AnalysisError, Unknown, dotted, src
 from . import c12, c13
 from .c10 import unit_of
 
-TECHNIQUE = "QFREE-emission/deactivation pairing, typestate (activate/deactivate) analysis of internally created handles with escape through returns, belief rule on the relocation peephole (static analysis)"
-ENGINES = ["model", "flow", "emit"]
+TECHNIQUE = "QFREE-emission/deactivation pairing, typestate (activate/deactivate) analysis of internally created handles with escape through returns, belief rule on the relocation peephole; abstract interpretation of small functions over an enumerated finite domain by the checker's own AST interpreter (static analysis)"
+ENGINES = ["model", "flow", "emit", "circuit"]
 EXPLANATION = (
     "Over sdk/qubit.py, sdk/builder.py, sdk/epr_socket.py, sdk/memmgr.py: every ICmd(QFREE) construction is located; a builder "
     "primitive that frees the id it is given is followed to its callers, each of which must deactivate the handle whose qubit_id it "
